@@ -11,7 +11,7 @@ import build as B
 import common as H
 import sercommon as S
 from common import Case
-from props.C12 import KINDS, UNIVS, valid_desc, falsy_descs
+from props.C12 import KINDS, UNIVS, valid_desc, falsy_descs, dw_descs, retarget_descs
 
 KMS = ["true", "false", "custom"]
 VMS = ["true", "false", "custom"]
@@ -62,7 +62,19 @@ class Prop:
               "load (save t) returns the stored header and a tree iso to t, and the result does not depend on key_map / value_map.  Tied to "
               "/repo by a correspondence check that writes and reads real files through all compression methods and target kinds."),
         note=("Trusted: Coq kernel + vm_compute; hand-written model theories/Forest/Serialize.v (tied by the correspondence only); json, "
-              "zipfile, io (byte transport); harness generators/observation.  Known finding D40."),
+              "zipfile, io (byte transport); harness generators/observation.  Known findings D40, D51.  "
+              "EXERCISED, NOT PROVED (outside a pure value model of the document; checked by the harness oracle on every case): the six "
+              "compression values and str/Path/stream targets give the same text and the same loaded tree (the compression DISPATCH itself is "
+              "proved in part ZIPIO, C05_transport_*); callback vs derived-class mappers are the same model function reached by two Python "
+              "routes (both run, incl. mappers that consume their dict); the loaded tree is an instance of the loading class (type(t) is cls); "
+              "save/load leave node data, the caller's meta/value_map/file_meta dicts and the class-level default maps untouched; clones share "
+              "ONE data object (model: i_obj, compared in the correspondence; not part of iso).  OUTSIDE THE DOMAIN: two nodes with one explicit "
+              "data_id but different data objects (one data_id = one data object is what 'clone' means): the second is written as a reference "
+              "and loads with the first one's data; theorem hypothesis clones_consistent, C05_roundtrip_without_clones_consistent_refuted, "
+              "Example C05_outside_domain_same_id_different_data; the oracle expects exactly the first occurrence's data there.  Also outside: "
+              "non-injective custom key_map and reserved $-keys in user meta (user errors, opts_ok).  Mapper hypotheses (mapper_ok) are "
+              "assumptions about the user's mapper pair; they are proved for the concrete pair wser/wdeser and for the library's default "
+              "mappers on str data (C05_roundtrip_default_mappers), not for the harness' table-driven mappers."),
         technique="Coq proof about an executable Gallina model + differential correspondence check (vm_compute) + Python oracle",
         design_ref="DESIGN.md section 6 (C05)",
     )
@@ -91,6 +103,8 @@ class Prop:
         yield from self.fs_descs(tier, rng)
         for j, fd in enumerate(falsy_descs()):
             yield dict(fd, km=KMS[j % 3], vm=VMS[(j // 3) % 3])
+        yield from dw_descs(tier, rng)
+        yield from retarget_descs(tier, rng)
         combos = [(k, v) for k in KMS for v in VMS]
         i = 0
         for td in self.tree_descs(tier, rng):
@@ -177,8 +191,10 @@ class Prop:
         skw, lkw, cls = S.resolve_opts(desc)
         typed = bool(desc.get("typed"))
         ms = desc.get("mapper", "cb")
+        data_snap = S.data_snapshot(tree._root)
         tr = self.transports(tree, skw, cls, lkw)
-        fail = None
+        readonly = S.snapshot_diff(data_snap, S.data_snapshot(tree._root), "save() / load()")
+        fail = readonly
         finding = None
         name0, text0, t0, meta0 = tr[0]
         # --- the model is compared on the first transport; all others must do the same as the first
@@ -214,13 +230,12 @@ class Prop:
             # known finding D51: the reader renames the mapper's own "s" (size) to "str"; FileSystemEntry(size=data["s"]) fails
             fail, finding = f"D51: load fails with {t0!r} because the key_map's short name 's' is also a key of the entries", "D51"
         elif isinstance(t0, Exception):
-            if not needs_mapper:
-                fail = fail or f"roundtrip: load fails with {t0!r:.300} on {text0[:400]}"
+            fail = fail or f"roundtrip: load fails with {t0!r:.300} on {text0[:400]}"
         else:
             if type(t0) is not cls:
                 fail = fail or f"roundtrip: loaded tree is a {type(t0).__name__}"
             d40 = S.in_d40_region(tree._root)
-            f2 = S.tree_iso(tree._root, t0._root, d40_expected=d40, check_data=S.ids_consistent(tree._root))
+            f2 = S.tree_iso(tree._root, t0._root, d40_expected=d40)
             if f2 and f2.startswith("D40") and not fail:
                 fail, finding = f2, "D40"
             else:
@@ -257,7 +272,7 @@ class Prop:
         for n in B.all_nodes(tree._root):
             if isinstance(n._data, str):
                 strings.add(n._data)
-        names = () if ms != "fs" or doc is None else fnames if isinstance(t0, Exception) else S.loaded_names(t0)
+        names = () if ms not in ("fs", "dw") or doc is None else fnames if isinstance(t0, Exception) else S.loaded_names(t0)
         coq = (f"CRound {S.coq_sopts(desc, tree, U)} {S.coq_lenv(typed, ms, strings, hashes if doc is not None else [], names)} "
                f"{H.coq_forest(tree._root, U)}")
         nodes = (doc or {}).get("nodes", [])
@@ -286,6 +301,16 @@ def _more_checks(self, desc, tree, cls, lkw, text0, t0):
         if canon(tc._root) != canon(t0._root):
             return (f"mapper: with a deserialize mapper ({style}) that pops 'data_id'/'kind' from its dict the loaded tree differs: "
                     f"{canon(tc._root)} instead of {canon(t0._root)}")
+    # (a2) ONE file_meta dict reused across loads (first another file written with maps, then this tree's files)
+    try:
+        skw0, lkw0, cls0 = S.resolve_opts(dict(desc, km="false", vm="false"))
+        fp0 = io.StringIO()
+        tree.save(fp0, **skw0)
+        r = S.file_meta_reuse_check(cls, lkw, [text0, fp0.getvalue(), text0], canon(t0._root))
+    except Exception as e:  # noqa: BLE001
+        r = f"file_meta: {e!r:.200}"
+    if r:
+        return r
     # (b) one meta dict reused by two saves with different options
     r = S.meta_reuse_check(desc, tree, cls, lkw)
     if isinstance(r, str):
@@ -310,7 +335,7 @@ def _more_checks(self, desc, tree, cls, lkw, text0, t0):
                 tl = cls.load(io.StringIO(fp.getvalue()), **lkw)
             except Exception as e:  # noqa: BLE001
                 return f"history: save, replace a node by one of a new kind, save again, load: {e!r:.200}"
-            f2 = S.tree_iso(tree2._root, tl._root, d40_expected=S.in_d40_region(tree2._root), check_data=S.ids_consistent(tree2._root))
+            f2 = S.tree_iso(tree2._root, tl._root, d40_expected=S.in_d40_region(tree2._root))
             if f2 and not f2.startswith("D40"):
                 return "history: after save, replacing a node, save again: " + f2
     return None
@@ -345,9 +370,18 @@ CORPUS = [
     # D51 (known): FileSystemTree saved with the plain Tree's default key_map: "s" is a short name AND the mapper's size key
     dict(typed=False, univ=["D:src", "f:a.py:120:1700000000.5"], nodes=[[0, None, None, [[1, None, None, []]]]],
          km="treedefault", vm="true", mapper="fs", meta=None, calc=None),
+    # outside the domain (clones_consistent): one explicit data_id on two different data objects -- 'b' must load as 'a', exactly
+    _d(False, ["s:a", "s:x", "s:b"], [[0, None, 1, []], [1, None, None, [[2, None, 1, []]]]], mapper="cb"),
+    # D92 (fixed): plain Tree, str node with explicit id, no mapper: must simply round-trip
+    _d(False, ["s:x", "s:y"], [[0, None, "k1", [[1, None, None, []]]]], mapper="none"),
     # unicode, falsy explicit ids
     _d(False, ["s:\u00e4\u20ac\U0001f600", "e:1", "s:z"], [[0, None, 0, [[1, None, "", []]]], [2, None, None, [[0, None, 0, []]]]], km="custom", vm="custom",
        meta={"\u00fc": ["\u20ac"]}),
 ]
 
 PROP = Prop()
+
+import parts  # noqa: E402
+import parts_misc  # noqa: E402
+
+parts.attach(PROP, parts_misc.ZIPIO)   # the byte transport of save/load (model Forest/MiscZipIO.v, theorems at the end of Properties/C05.v)
